@@ -42,6 +42,9 @@ type DenseIntMatrix struct {
 /* constructors
  * -------------------------------------------------------------------------- */
 func NewDenseIntMatrix(values []int, rows, cols int) *DenseIntMatrix {
+  if rows < 0 || cols < 0 || len(values) != rows*cols {
+    panic("NewMatrix(): Matrix dimension does not fit input values!")
+  }
   m := DenseIntMatrix{}
   m.values = values
   m.rows = rows
